@@ -208,8 +208,10 @@ impl Mp4Track {
     }
 
     pub fn duration(&self) -> Duration {
-        let micros = self.trak.mdia.mdhd.duration as u128 * 1_000_000
-            / self.trak.mdia.mdhd.timescale as u128;
+        // a timescale of 0 is meaningless; report a zero duration rather than divide by it
+        let micros = (self.trak.mdia.mdhd.duration as u128 * 1_000_000)
+            .checked_div(self.trak.mdia.mdhd.timescale as u128)
+            .unwrap_or(0);
         Duration::from_micros(u64::try_from(micros).unwrap_or(u64::MAX))
     }
 
